@@ -2554,20 +2554,20 @@ func (f *VFSFile) pollReplicaClient(ctx context.Context) error {
 	if err != nil {
 		return fmt.Errorf("poll L1: %w", err)
 	}
-	if replace1 {
-		replaceIndex = true
-		baseCommit = commit1
+	// A level 1 file can end before the position already reached through
+	// level 0 (it was compacted from older level 0 files). Its pages are then
+	// older versions and its commit is an older database size.
+	for k, v := range idx1 {
+		if cur, ok := combined[k]; ok && cur.MaxTXID > v.MaxTXID {
+			continue
+		}
+		combined[k] = v
+	}
+	if maxTXID1 > maxTXID0 {
+		if replace1 {
+			replaceIndex = true
+		}
 		newCommit = commit1
-		for k, v := range idx1 {
-			combined[k] = v
-		}
-	} else {
-		for k, v := range idx1 {
-			combined[k] = v
-		}
-		if commit1 > newCommit {
-			newCommit = commit1
-		}
 	}
 
 	// Send updates to a pending list if there are active readers.
@@ -2606,6 +2606,14 @@ func (f *VFSFile) pollReplicaClient(ctx context.Context) error {
 		f.pendingReplace = !targetIsMain
 	}
 	for k, v := range combined {
+		// Never replace an entry by one from an older transaction range.
+		if cur, ok := f.index[k]; ok && cur.MaxTXID > v.MaxTXID {
+			delete(combined, k)
+			continue
+		} else if cur, ok := f.pending[k]; ok && cur.MaxTXID > v.MaxTXID {
+			delete(combined, k)
+			continue
+		}
 		target[k] = v
 		// Invalidate cache if we're updating the main index
 		if targetIsMain {
